@@ -59,6 +59,15 @@ class RealSession:
             # no usage rule anywhere: the lifetimes are those of the token handlers, what a token may mint is the
             # library's own default per class (a code: everything, once; a refresh token: access and refresh tokens)
             authz["kwargs"]["grant_config"].pop("usage_rules")
+        elif rules == "partial":
+            # the general rules say everything (as "implied"); every client restates only PART of each class's rule
+            # (what it may mint, nothing about lifetimes): the merge must keep the general expires_in
+            ur = authz["kwargs"]["grant_config"]["usage_rules"]
+            ur["authorization_code"].pop("max_usage")
+            for c in CLIENTS:
+                over.setdefault(c, {})["token_usage_rules"] = {
+                    "authorization_code": {"supports_minting": list(ur["authorization_code"]["supports_minting"])},
+                    "refresh_token": {"supports_minting": list(ur["refresh_token"]["supports_minting"])}}
         elif rules != "explicit":
             ur = authz["kwargs"]["grant_config"]["usage_rules"]
             ur["authorization_code"].pop("max_usage")
